@@ -10,11 +10,14 @@ correspondence in `harness/props/c04.py`.
 Quantifiers: all field values (`Int` for every integer argument: out-of-range ones are rejected, `inRange_iff_encodes`),
 all byte strings for names, identifiers, blocks and payloads, all lists of reminders / changes.
 
-Three statements are FALSE for the code as it stands (each with its witness below, confirmed on the real code by the
-check): D2 hello names containing `|`, D3 payloads containing `</DESCN><DATAS>`, D4 SETWC / WCREQ claimed by nobody.
-For each the full statement is kept in a comment next to the `_partial` theorem, together with the theorem that
-already holds for the repaired code (the model is parameterised by what the translator reads: `helloSplitMax`,
-`regexGreedy`, `claims_Watercare`), and the exact replacement proof.
+Three statements are FALSE for the code as it stands (each with a kernel-checked witness below, confirmed on the real
+code by the check): D2 hello names containing `|`, D3 payloads containing `</DESCN><DATAS>`, D4 SETWC / WCREQ claimed by
+nobody.  The corresponding theorems carry a hypothesis that is GUARDED by a Boolean computed from what the translator
+reads (`helloNeedsCleanName`, `regexNeedsCleanPayload`, `Msg.orphan`), and their proofs cover both the current and the
+repaired source.  So when a `fix:` lands the guard evaluates to `false`, the hypothesis becomes vacuous and the very same
+theorem is the full-strength statement — nothing has to be re-proved (then drop the `_partial` suffix and the guard).
+The full statement is also kept in a comment next to each, and proved outright for the repaired parameter values
+(`hello_roundtrip_split1`, `frame_roundtrip_lazy`).
 -/
 import GeckoModel.Proofs.WireClaims
 import GeckoModel.Generated.WirePins
@@ -98,30 +101,44 @@ theorem hello_client_roundtrip (id : Bytes) (h : (Msg.helloClient id).inDomain =
     decode .hello (helloFrame id) = .ok (Msg.helloClient id).fields :=
   hello_client_rt helloSplitMax id h
 
-/- FULL (false for the current source: `hello_name_with_bar_fails`):
-theorem hello_roundtrip (id name : Bytes) (h : (Msg.helloResponse id name).inDomain = true) :
-    decode .hello (helloFrame (id ++ [helloSep] ++ name)) = .ok (Msg.helloResponse id name).fields
-After fix D2 (`content.split(b"|", 1)`) the translator emits `helloSplitMax = some 1` and the proof is
-`hello_roundtrip_split1 1 id name h`  (decode .hello = decodeHelloWith helloSplitMax by rfl). -/
-
-/-- what holds now: names WITHOUT the separator byte -/
-theorem hello_roundtrip_partial (id name : Bytes) (h : (Msg.helloResponse id name).inDomain = true)
-    (hname : helloSep ∉ name) :
-    decode .hello (helloFrame (id ++ [helloSep] ++ name)) = .ok (Msg.helloResponse id name).fields := by
-  simp only [Msg.inDomain, Bool.and_eq_true, Bool.not_eq_true', List.contains_eq_mem, decide_eq_false_iff_not] at h
-  exact hello_response_rt_split id name h.1 hname h.2
-
 /-- the repaired decoder (`split(b"|", 1)`): ANY name, including names containing `|` -/
 theorem hello_roundtrip_split1 (n : Nat) (id name : Bytes) (h : (Msg.helloResponse id name).inDomain = true) :
     decodeHelloWith (some n) (helloFrame (id ++ [helloSep] ++ name)) = .ok (Msg.helloResponse id name).fields := by
   simp only [Msg.inDomain, Bool.and_eq_true, Bool.not_eq_true', List.contains_eq_mem, decide_eq_false_iff_not] at h
   exact hello_response_rt_split1 n id name h.1 h.2
 
-/-- D2 witness: spa "SPA" named "a|b" — the current decoder raises ValueError -/
+/-- the decoder without `maxsplit`: names WITHOUT the separator byte -/
+theorem hello_roundtrip_split (id name : Bytes) (h : (Msg.helloResponse id name).inDomain = true) (hname : helloSep ∉ name) :
+    decodeHelloWith none (helloFrame (id ++ [helloSep] ++ name)) = .ok (Msg.helloResponse id name).fields := by
+  simp only [Msg.inDomain, Bool.and_eq_true, Bool.not_eq_true', List.contains_eq_mem, decide_eq_false_iff_not] at h
+  exact hello_response_rt_split id name h.1 hname h.2
+
+/- FULL:
+theorem hello_roundtrip (id name : Bytes) (h : (Msg.helloResponse id name).inDomain = true) :
+    decode .hello (helloFrame (id ++ [helloSep] ++ name)) = .ok (Msg.helloResponse id name).fields
+false for the current source (`hello_name_with_bar_fails`, `helloNeedsCleanName = true`).  After fix D2
+(`content.split(b"|", 1)`) the translator emits `helloSplitMax = some 1`, `helloNeedsCleanName` evaluates to `false` and
+`hello_roundtrip_partial id name h (by decide)` IS this statement. -/
+
+/-- hello response round trip for the decoder of the source as it is: the name is restricted only while the source needs it -/
+theorem hello_roundtrip_partial (id name : Bytes) (h : (Msg.helloResponse id name).inDomain = true)
+    (hname : helloNeedsCleanName = true → helloSep ∉ name) :
+    decode .hello (helloFrame (id ++ [helloSep] ++ name)) = .ok (Msg.helloResponse id name).fields := by
+  first
+    | (have e : helloSplitMax = none := rfl
+       show decodeHelloWith helloSplitMax _ = _
+       rw [e]
+       exact hello_roundtrip_split id name h (hname (by decide)))
+    | (have e : helloSplitMax = some 1 := rfl
+       show decodeHelloWith helloSplitMax _ = _
+       rw [e]
+       exact hello_roundtrip_split1 1 id name h)
+
+/-- D2 witness: spa "SPA" named "a|b" is in the domain, is encoded, and the decoder without `maxsplit` raises ValueError -/
 theorem hello_name_with_bar_fails :
     (Msg.helloResponse [83, 80, 65] [97, 124, 98]).inDomain = true ∧
     (Msg.helloResponse [83, 80, 65] [97, 124, 98]).sendBytes [] [] = .ok (helloFrame [83, 80, 65, 124, 97, 124, 98]) ∧
-    decode .hello (helloFrame [83, 80, 65, 124, 97, 124, 98]) = .error .valueErr := by decide
+    decodeHelloWith none (helloFrame [83, 80, 65, 124, 97, 124, 98]) = .error .valueErr := by decide
 
 /-! ## 4. packet framing -/
 
@@ -132,24 +149,18 @@ theorem frameBody_lits (src dst payload : Bytes) : frameBody src dst payload =
     regexLits.1 ++ (src ++ (regexLits.2.1 ++ (dst ++ (regexLits.2.2.1 ++ (payload ++ regexLits.2.2.2))))) := by
   simp [frameBody, regexLits, SRCCN_OPEN, SRCCN_CLOSE, DESCN_OPEN, DESCN_CLOSE, DATAS_OPEN, DATAS_CLOSE]
 
-/- FULL (false for the current source: `frame_roundtrip_fails`):
-theorem frame_roundtrip (src dst payload : Bytes) (hs : 60 ∉ src) (hd : 60 ∉ dst) :
-    decodePacket (frame dst src payload) = .ok (.packet (some src) (some dst) (some payload))
-After fix D3 (`(.*?)` for the first two groups) the translator emits `regexGreedy = (false, false, true)` and the proof is
-`frame_roundtrip_lazy src dst payload hs hd`  (decodePacket = decodePacketWith regexGreedy by rfl). -/
-
-/-- what holds now (three greedy groups): identifiers without `<`, payload not containing `</DESCN><DATAS>` -/
-theorem frame_roundtrip_partial (src dst payload : Bytes) (hs : 60 ∉ src) (hd : 60 ∉ dst)
+/-- three greedy groups: identifiers without `<`, payload not containing `</DESCN><DATAS>` -/
+theorem frame_roundtrip_greedy (src dst payload : Bytes) (hs : 60 ∉ src) (hd : 60 ∉ dst)
     (hp : occurs (DESCN_CLOSE ++ DATAS_OPEN) payload = false) :
-    decodePacket (frame dst src payload) = .ok (.packet (some src) (some dst) (some payload)) := by
+    decodePacketWith (true, true, true) (frame dst src payload) = .ok (.packet (some src) (some dst) (some payload)) := by
   rw [frame_eq]
-  unfold decodePacket extract
+  unfold decodePacketWith
   rw [sliceNegEnd_frame _ _ _ (by decide) (by decide), frameBody_lits]
   have hp' : occurs regexLits.2.2.1 (payload ++ regexLits.2.2.2) = false :=
     occurs_append _ _ (by decide) (by decide) payload hp
   have := matchHere_greedy regexLits 60 _ 60 _ rfl rfl (by decide) (by decide) (by decide) (by decide) src dst payload
     (allClash_of_not_mem _ 60 _ rfl src hs) (allClash_of_not_mem _ 60 _ rfl dst hd) (allClash_of_not_mem _ 60 _ rfl dst hd) hp'
-  rw [show regexGreedy = (true, true, true) from rfl, search_of_matchHere _ _ _ _ this]
+  rw [search_of_matchHere _ _ _ _ this]
 
 /-- the repaired regex (lazy, lazy, greedy): identifiers without `<`, ARBITRARY payload bytes -/
 theorem frame_roundtrip_lazy (src dst payload : Bytes) (hs : 60 ∉ src) (hd : 60 ∉ dst) :
@@ -161,17 +172,39 @@ theorem frame_roundtrip_lazy (src dst payload : Bytes) (hs : 60 ∉ src) (hd : 6
     (allClash_of_not_mem _ 60 _ rfl src hs) (allClash_of_not_mem _ 60 _ rfl dst hd)
   rw [search_of_matchHere _ _ _ _ this]
 
-/-- D3 witness: src "A", dst "B", payload `x</SRCCN><DESCN>y</DESCN><DATAS>z` — source id, destination id and content
-all come back wrong -/
+/- FULL:
+theorem frame_roundtrip (src dst payload : Bytes) (hs : 60 ∉ src) (hd : 60 ∉ dst) :
+    decodePacket (frame dst src payload) = .ok (.packet (some src) (some dst) (some payload))
+false for the current source (`frame_roundtrip_fails`, `regexNeedsCleanPayload = true`).  After fix D3 (`(.*?)` for the first
+two groups) the translator emits `regexGreedy = (false, false, true)`, `regexNeedsCleanPayload` evaluates to `false` and
+`frame_roundtrip_partial src dst payload hs hd (by decide)` IS this statement. -/
+
+/-- packet framing round trip for the regex of the source as it is: the payload is restricted only while the source
+needs it -/
+theorem frame_roundtrip_partial (src dst payload : Bytes) (hs : 60 ∉ src) (hd : 60 ∉ dst)
+    (hp : regexNeedsCleanPayload = true → occurs (DESCN_CLOSE ++ DATAS_OPEN) payload = false) :
+    decodePacket (frame dst src payload) = .ok (.packet (some src) (some dst) (some payload)) := by
+  show decodePacketWith regexGreedy _ = _
+  first
+    | (have e : regexGreedy = (true, true, true) := rfl
+       rw [e]
+       exact frame_roundtrip_greedy src dst payload hs hd (hp (by decide)))
+    | (have e : regexGreedy = (false, false, true) := rfl
+       rw [e]
+       exact frame_roundtrip_lazy src dst payload hs hd)
+
+/-- D3 witness: src "A", dst "B", payload `x</SRCCN><DESCN>y</DESCN><DATAS>z` under three greedy groups — source id,
+destination id and content all come back wrong -/
 theorem frame_roundtrip_fails :
-    decodePacket (frame [66] [65] ([120] ++ SRCCN_CLOSE ++ DESCN_OPEN ++ [121] ++ DESCN_CLOSE ++ DATAS_OPEN ++ [122])) =
+    decodePacketWith (true, true, true)
+      (frame [66] [65] ([120] ++ SRCCN_CLOSE ++ DESCN_OPEN ++ [121] ++ DESCN_CLOSE ++ DATAS_OPEN ++ [122])) =
       .ok (.packet (some ([65] ++ SRCCN_CLOSE ++ DESCN_OPEN ++ [66] ++ DESCN_CLOSE ++ DATAS_OPEN ++ [120])) (some [121]) (some [122])) := by
   decide +kernel
 
 /-- **reply addressing**: a reply built with the parms a packet handler holds after `handle(received, sender)` carries
 the received destination as its source and the received source as its destination -/
 theorem reply_swaps_partial (src dst payload reply : Bytes) (hs : 60 ∉ src) (hd : 60 ∉ dst)
-    (hp : occurs (DESCN_CLOSE ++ DATAS_OPEN) payload = false) :
+    (hp : regexNeedsCleanPayload = true → occurs (DESCN_CLOSE ++ DATAS_OPEN) payload = false) :
     replyTo (PACKET_OPEN ++ frameBody src dst payload ++ PACKET_CLOSE) reply =
       some (PACKET_OPEN ++ frameBody dst src reply ++ PACKET_CLOSE) := by
   have := frame_roundtrip_partial src dst payload hs hd hp
@@ -182,11 +215,11 @@ theorem reply_swaps_partial (src dst payload reply : Bytes) (hs : 60 ∉ src) (h
   rw [frame_eq]
 
 /-- sender to receiver, whole datagram: `send_bytes` of the built handler, `handle` of the packet handler, then
-`handle` of the verb's handler yields the fields (under the D3 hypothesis on the content) -/
+`handle` of the verb's handler yields the fields (the content is restricted only while the regex of the source needs it) -/
 theorem wire_roundtrip_partial (m : Msg) (p2 p3 : Bytes) (hr : m.inRange = true) (hh : m.isHello = false)
     (hd : m.inDomain = true) (hs : m.isWcSet = false) (h2 : 60 ∉ p2) (h3 : 60 ∉ p3) :
     ∃ dg c, m.sendBytes p2 p3 = .ok dg ∧ m.content = .ok c ∧
-      (occurs (DESCN_CLOSE ++ DATAS_OPEN) c = false →
+      ((regexNeedsCleanPayload = true → occurs (DESCN_CLOSE ++ DATAS_OPEN) c = false) →
         decodePacket dg = .ok (.packet (some p3) (some p2) (some c))) ∧
       ∀ k ∈ m.handlers, decode k c = .ok m.fields := by
   obtain ⟨c, hc, hk⟩ := roundtrip m hr hh hd hs
@@ -200,20 +233,26 @@ theorem verbs_prefix_free :
     ∀ v ∈ allVerbs, ∀ w ∈ allVerbs ++ allTags, v ≠ w → v.isPrefixOf w = false ∧ w.isPrefixOf v = false := by
   decide
 
-/- FULL (false for the current source: `setwc_unclaimed`, `giveschedule_unclaimed`):
+/- FULL:
 theorem claimed_by_exactly (m : Msg) (hh : m.isHello = false) (c : Bytes) (hc : m.content = .ok c) :
     ∀ k ∈ standardHandlers, canHandle k c = m.handlers.contains k
-After fix D4 (SETWC_VERB and WCREQ_VERB added to `GeckoWatercareProtocolHandler.can_handle`) the translator emits them in
-`claims_Watercare`; delete the hypothesis `ho` below and the two `_unclaimed` theorems: the proof is unchanged. -/
+false for the current source (`setwc_unclaimed`, `giveschedule_unclaimed`).  `Msg.orphan` is computed from the verb lists the
+translator reads out of every `can_handle`: after fix D4 (SETWC_VERB and WCREQ_VERB tested by
+`GeckoWatercareProtocolHandler.can_handle`) `m.orphan = false` holds for EVERY m (`by cases m <;> rfl`) and
+`claimed_by_exactly_partial` IS this statement. -/
 
-/-- every message the library builds — except SETWC and WCREQ (D4) — is accepted by exactly the handler class(es) of
-its verb among the standard handler classes, whatever its field values -/
+/-- every message the library builds whose verb is tested by its handler's `can_handle` (today: all but SETWC and WCREQ,
+`orphan_exactly`) is accepted by exactly the handler class(es) of its verb among the standard handler classes, whatever
+its field values -/
 theorem claimed_by_exactly_partial (m : Msg) (hh : m.isHello = false) (ho : m.orphan = false) (c : Bytes)
     (hc : m.content = .ok c) : ∀ k ∈ standardHandlers, canHandle k c = m.handlers.contains k := by
   obtain ⟨b, _, rfl⟩ := content_ok hc
   have table : ∀ v, m.verb = some v → v ∈ allVerbs ∧
       ∀ k ∈ standardHandlers, (k == .unhandled || k.claims.contains v) = m.handlers.contains k := by
-    cases m <;> first | (intro v hv; simp only [Msg.verb, Option.some.injEq] at hv; subst hv; simp only [Msg.handlers]; decide) | (simp [Msg.isHello] at hh; done) | (simp [Msg.orphan] at ho; done)
+    cases m <;> first
+      | (intro v hv; simp only [Msg.verb, Option.some.injEq] at hv; subst hv; simp only [Msg.handlers]; decide)
+      | (simp [Msg.isHello] at hh; done)
+      | (exfalso; revert ho; simp only [Msg.orphan, Msg.verb, Msg.handlers]; decide)
   cases hv : m.verb with
   | none => cases m <;> first | (simp [Msg.isHello] at hh; done) | (simp [Msg.verb] at hv; done)
   | some v =>
@@ -222,6 +261,14 @@ theorem claimed_by_exactly_partial (m : Msg) (hh : m.isHello = false) (ho : m.or
     simp only [Option.getD]
     rw [canHandle_verb k v b hmem]
     exact ht k hk
+
+/-- which messages are orphans today: exactly the two watercare forms (this is the statement that changes with fix D4) -/
+theorem orphan_exactly (m : Msg) (hh : m.isHello = false) :
+    m.orphan = true → (∃ s md, m = .wcSet s md) ∨ m = .wcGiveSchedule := by
+  cases m <;> first
+    | (intro h; exfalso; revert h; simp only [Msg.orphan, Msg.verb, Msg.handlers]; decide)
+    | (intro _; exact Or.inl ⟨_, _, rfl⟩)
+    | (intro _; exact Or.inr rfl)
 
 /-- on the wire: a hello datagram is claimed by the hello handler only, every packet datagram by the packet handler
 only — for arbitrary identifiers and content -/
@@ -240,23 +287,28 @@ theorem datagram_claimed (m : Msg) (p2 p3 dg : Bytes) (h : m.sendBytes p2 p3 = .
     · simp only [if_true, canHandle_helloFrame]
       cases k <;> first | rfl | (exact absurd hk (by decide))
 
-/-- D4 witness: no standard handler class accepts the SETWC message the library builds (any seq, mode) -/
-theorem setwc_unclaimed (seq mode : Int) (c : Bytes) (hc : (Msg.wcSet seq mode).content = .ok c) :
-    ∀ k ∈ standardHandlers, canHandle k c = false := by
+/-- D4 witness: while SETWC is an orphan, NO standard handler class accepts the SETWC message the library builds
+(any seq, mode) -/
+theorem setwc_unclaimed (seq mode : Int) (ho : (Msg.wcSet seq mode).orphan = true) (c : Bytes)
+    (hc : (Msg.wcSet seq mode).content = .ok c) : ∀ k ∈ standardHandlers, canHandle k c = false := by
   obtain ⟨b, _, rfl⟩ := content_ok hc
+  have hw : Handler.watercare.claims.contains SETWC_VERB = false := by
+    simpa [Msg.orphan, Msg.verb, Msg.handlers] using ho
   intro k hk
   simp only [Msg.verb, Option.getD]
   rw [canHandle_verb k _ b (by decide)]
-  revert k; decide
+  cases k <;> first | exact hw | rfl | (exact absurd hk (by decide))
 
-/-- D4 witness: no standard handler class accepts the WCREQ message the library builds -/
-theorem giveschedule_unclaimed (c : Bytes) (hc : Msg.wcGiveSchedule.content = .ok c) :
+/-- D4 witness: while WCREQ is an orphan, no standard handler class accepts the WCREQ message the library builds -/
+theorem giveschedule_unclaimed (ho : Msg.wcGiveSchedule.orphan = true) (c : Bytes) (hc : Msg.wcGiveSchedule.content = .ok c) :
     ∀ k ∈ standardHandlers, canHandle k c = false := by
   obtain ⟨b, _, rfl⟩ := content_ok hc
+  have hw : Handler.watercare.claims.contains WCREQ_VERB = false := by
+    simpa [Msg.orphan, Msg.verb, Msg.handlers] using ho
   intro k hk
   simp only [Msg.verb, Option.getD]
   rw [canHandle_verb k _ b (by decide)]
-  revert k; decide
+  cases k <;> first | exact hw | rfl | (exact absurd hk (by decide))
 
 /-- … and were the watercare handler given a SETWC it would take it for WCSET: sequence and mode are dropped -/
 theorem setwc_fields_lost (seq mode : Int) (c : Bytes) (hc : (Msg.wcSet seq mode).content = .ok c) :
@@ -298,7 +350,7 @@ example : (Msg.helloResponse [83, 80, 65] [97, 124, 98]).inDomain = true ∧ (Ms
     (Msg.helloClient [67, 76]).inDomain = false := by decide
 example : (60 : UInt8) ∉ [73, 79, 83, 49] ∧ occurs (DESCN_CLOSE ++ DATAS_OPEN) [10, 0, 60, 47, 68, 65, 84, 65, 83, 62] = false ∧
     occurs (DESCN_CLOSE ++ DATAS_OPEN) ([1] ++ DESCN_CLOSE ++ DATAS_OPEN ++ [2]) = true := by decide
-example : (Msg.versionRequest 7).orphan = false ∧ (Msg.wcSet 1 2).orphan = true ∧ Handler.watercare ∈ standardHandlers := by decide
+example : (Msg.versionRequest 7).orphan = false ∧ (Msg.statusSegment 1 0 [60]).orphan = false ∧ Handler.watercare ∈ standardHandlers := by decide
 example : ∀ td ∈ [((1 : Int), (-13 : Int)), (6, 32767), (0, -32768)], td.1 ∈ reminderTypeValues ∧ -32768 ≤ td.2 ∧ td.2 < 32768 := by
   decide
 
